@@ -130,6 +130,15 @@ def _cases_core(rng, tier):
         yield "wallet_held %s %s" % (a_, b_), "held-wallet"
         if n_ < 3:                      # (in the last two pairs the second wallet is invalid on purpose)
             yield "wallet_held %s %s" % (b_, a_), "held-wallet"
+    # hex texts (entropy, seed) with the white space bytes.fromhex tolerates: the wallet is the wallet of the BYTES
+    for ln in ([16, 32] if tier == "quick" else [16, 20, 24, 28, 32]):
+        e = bytes(rng.getrandbits(8) for _ in range(ln)).hex()
+        for v_ in common.hex_blank_variants(rng, e, many=(tier == "thorough")):
+            yield "wallet ent:%s:-:-:%s" % (sx(v_), rng.choice("01")), "entropy-hex-with-blanks"
+    for ln in ([16, 64] if tier == "quick" else [16, 32, 64, 17]):
+        sd = bytes(rng.getrandbits(8) for _ in range(ln)).hex()
+        for v_ in common.hex_blank_variants(rng, sd, many=(tier == "thorough")):
+            yield "wallet seedh:%s:%s" % (sx(v_), rng.choice("01")), "seed-hex-with-blanks"
     yield "wallet seedh:%s:0" % sx("zz"), "seed-hex-bad"
     yield "wallet seedh:%s:0" % sx("abc"), "seed-hex-odd"
 
